@@ -81,6 +81,39 @@ def owners_of(line):
     return OWNER.get(kind, ALL), kind
 
 
+def hang_key(txt):
+    """Canonical key of a hang (the harness's real-time 'Overdue' verdict) whose SHAPE is a recorded finding of
+    C02, computed from the scenario's own header and event log; None for every other shape.
+      shutdown-before-run-blocks-forever: a Stop() that was called and never returned, on a runnable with a
+        lifecycle-style Stop whose Run was never invoked, in a scenario in which no Run at all was invoked and
+        the Shutdown() call was logged before Run() was called (or Run() was never called);
+      never-returning-run-blocks-stop-forever: a Stop() that was called and never returned, on a runnable with a
+        lifecycle-style Stop whose Run was invoked, is declared never-returning, and has not returned."""
+    lines = txt.splitlines()
+    if not lines:
+        return None
+    m = re.search(r"caps=(\S*)", lines[0])
+    caps = m.group(1).split(",") if m and m.group(1) else []
+    evs = [l[3:] for l in lines if l.startswith("EV ")]
+    pos = {}
+    for k, e in enumerate(evs):
+        pos.setdefault(e, k)
+    sd_calls = [k for k, e in enumerate(evs) if re.match(r"Call \d+ Shutdown$", e)]
+    any_run = any(e.startswith("RunCall ") for e in evs)
+    for i, c in enumerate(caps):
+        if len(c) < 6 or c[4] != "1":
+            continue                      # not a lifecycle-style Stop
+        if "StopCall %d" % i not in pos or "StopRet %d" % i in pos:
+            continue                      # its Stop() is not the one that hangs
+        ran = "RunCall %d" % i in pos
+        if (not ran and not any_run and sd_calls and sd_calls[0] < pos["StopCall %d" % i]
+                and ("RunEnter" not in pos or sd_calls[0] < pos["RunEnter"])):
+            return "shutdown-before-run-blocks-forever"
+        if ran and c[5] == "n" and not any(e.startswith("RunRet %d " % i) for e in evs):
+            return "never-returning-run-blocks-stop-forever"
+    return None
+
+
 def scn_of(line):
     m = re.search(r"SCN (\d+) family=(\w+)", line)
     return (m.group(1), m.group(2)) if m else ("0", "mixed")
@@ -130,6 +163,7 @@ def run_property(run, pid, families, prop_file, proof_files, n_quick=210, n_thor
     lines, tot = run_model(scens, C.NPROC)
     mine_rej, other_rej = 0, 0
     seen = set()
+    hangs = {}
     for l in lines:
         seed, fam = scn_of(l)
         txt = scenario_text(scens, seed, fam)
@@ -170,7 +204,16 @@ def run_property(run, pid, families, prop_file, proof_files, n_quick=210, n_thor
             leak = pid == "C18" and mm is not None and int(mm.group(1)) > int(mm.group(2))
             if own_fail:
                 continue  # reported above with the failing input
-            run.violation("corr:%s:%s:%s" % (kind, fam, seed),
+            key = "corr:%s:%s:%s" % (kind, fam, seed)
+            if pid == "C02" and kind == "Overdue":
+                # a hang: known finding iff its shape (computed from the scenario itself) is a recorded one AND
+                # the model - which is faithful to the defect - accepted everything else of the trace
+                hk = hang_key(txt)
+                rejected = [x for x in lines if x.startswith("MISMATCH reject") and scn_of(x) == (seed, fam)]
+                if hk and not rejected:
+                    key = hk
+                    hangs[hk] = hangs.get(hk, 0) + 1
+            run.violation(key,
                           dict(payload, theorem="correspondence B: accept_from (lib/LTS.v) on coq/model/Supervisor.v rejected "
                                "the implementation's trace at the given event"),
                           "implementation trace rejected by the supervisor model at a %s event (scenario %s/%s)%s" % (
@@ -199,6 +242,16 @@ def run_property(run, pid, families, prop_file, proof_files, n_quick=210, n_thor
         "rejections_owned_by_other_properties": other_rej,
         "monitor_failures": {k[3:]: v for k, v in tot.items() if k.startswith("pf_")},
     })
+    if pid == "C02":
+        cov["known_hang_shapes_exhibited"] = hangs
+        # the witnesses of the recorded findings are replayed on every run: say so when they stop showing
+        for fam, key in (("shutdownfirst", "shutdown-before-run-blocks-forever"),
+                         ("neverreturn", "never-returning-run-blocks-stop-forever")):
+            if fam in families and any(f["key"] == key for f in run.findings) and not hangs.get(key):
+                ran = [x for x in scens if (" family=%s " % fam) in x.split("\n", 1)[0]]
+                if ran:
+                    run.notes.append("known finding %s: %d scenarios of family %s ran and none exhibited it - the entry "
+                                     "in known_findings.txt may be stale" % (key, len(ran), fam))
     run.assumptions += ["quiescence is detected from runtime.Stack statuses of all goroutines",
                         "a mutex-ordered event log is a linearisation consistent with real-time order at the mock/API boundary"]
 
